@@ -116,6 +116,9 @@ impl<K: OneRttKey> KeySet<K> {
         largest_acknowledged_packet_number: PacketNumber,
         pto: Timestamp,
     ) -> Result<(CleartextShort<'a>, Option<u16>), ProcessingError> {
+        // While a key update is in progress the non-active slot still holds the previous key, so
+        // a packet that decrypts with it is a delayed packet and must not rotate the keys again
+        let update_in_progress = self.key_update_in_progress();
         let mut phase_to_use = self.key_phase() as u8;
         let packet_phase = packet.key_phase();
         let phase_switch = phase_to_use != (packet_phase as u8);
@@ -148,7 +151,7 @@ impl<K: OneRttKey> KeySet<K> {
 
         match result {
             Ok(packet) => {
-                let generation = if packet_phase != self.key_phase() {
+                let generation = if packet_phase != self.key_phase() && !update_in_progress {
                     //= https://www.rfc-editor.org/rfc/rfc9001#section-6.2
                     //# Sending keys MUST be updated before sending an
                     //# acknowledgement for the packet that was received with updated keys.
